@@ -192,12 +192,29 @@ def r4(ctx):
         a = l.iter.args
         ok = len(a) == 3 and src(a[1]) == 'args.bin' and src(a[2]) == 'args.sliding' and isinstance(a[0], ast.Call) and dotted(a[0].func) == 'int'
         valname = src(a[0].args[0]) if ok else None
-        prov = [s for s in walk_no_nested(f) if isinstance(s, ast.Assign) and src(s.targets[0]) == valname]
-        okp = ok and len(prov) == 1 and 'args.binTag' in src(prov[0].value) and "['features']" in src(prov[0].value)
-        ctx.emit('C10-R4', ok and okp, COUNTTABLE, l, f'binned coordinate is int({valname}) = {src(prov[0].value) if prov else None}; bin size args.bin, increment args.sliding',
+        # follow the local back (through further locals / a None sentinel) to the bin-tag value of the record's own features
+        chain = []
+        work = [valname] if valname else []
+        seenv = set()
+        while work:
+            nm_ = work.pop()
+            if nm_ in seenv:
+                continue
+            seenv.add(nm_)
+            for s_ in walk_no_nested(f):
+                if isinstance(s_, ast.Assign) and len(s_.targets) == 1 and src(s_.targets[0]) == nm_ and not (isinstance(s_.value, ast.Constant) and s_.value.value is None):
+                    chain.append(s_.value)
+                    work.extend(names_in(s_.value))
+        okp = ok and any('args.binTag' in src(v_) and "['features']" in src(v_) for v_ in chain)
+        ctx.emit('C10-R4', ok and okp, COUNTTABLE, l, f'binned coordinate is int({valname}) <- {[src(v_)[:50] for v_ in chain[:3]]}; bin size args.bin, increment args.sliding',
                  key='binned-value-provenance')
         # the increment is applied once per (sample, window)
-        okc = len(aug) == 1 and src(aug[0].value) == 'countToAdd' and st in names_in(aug[0].target) and en in names_in(aug[0].target)
+        from . import C11 as _C11
+        incv = aug[0].value
+        if isinstance(incv, ast.Name):
+            dd_ = [s_.value for s_ in walk_no_nested(f) if isinstance(s_, ast.Assign) and len(s_.targets) == 1 and src(s_.targets[0]) == incv.id and "['increment']" in src(s_.value)]
+            incv = dd_[0] if dd_ else incv
+        okc = len(aug) == 1 and "['increment']" in src(incv) and st in names_in(aug[0].target) and en in names_in(aug[0].target)
         ctx.emit('C10-R4', okc, COUNTTABLE, l, 'each accepted window receives the weight once per sample: ' + (src(aug[0]) if aug else 'no increment found'),
                  key='one-increment-per-window')
     g = ctx.fn(COUNTTABLE, 'create_count_table')
